@@ -13,7 +13,7 @@ import json
 from harness import common, gen, oracles
 from harness.props import cfg_transforms as T
 
-ALPH = ["a", "é", "€", "😀", "b", "ü", "→", "≤", "む", "←"]   # → ← ≤ € share the lead byte E2 (→ ← also the 2nd byte); € and む share the 2nd byte     # 1, 2, 3, 4, 1, 2 bytes; é and ü share the first byte
+ALPH = ["a", "é", "€", "😀", "b", "ü", "→", "≤", "む", "←", "\x00"]   # U+0000 encodes to the byte 0 — the one FALSY byte   # → ← ≤ € share the lead byte E2 (→ ← also the 2nd byte); € and む share the 2nd byte     # 1, 2, 3, 4, 1, 2 bytes; é and ü share the first byte
 
 
 def _bytes_of(x):
